@@ -306,8 +306,11 @@ impl NodeBounds {
     /// Node bounds for a `comp` node
     pub fn comp(left: Self, right: Self, mid_ty_bit_width: usize) -> NodeBounds {
         NodeBounds {
-            extra_cells: mid_ty_bit_width + cmp::max(left.extra_cells, right.extra_cells),
-            extra_frames: 1 + cmp::max(left.extra_frames, right.extra_frames),
+            // Saturate: type widths can be as large as usize::MAX, and a wrapped-around
+            // bound would let the Bit Machine accept a program it cannot hold.
+            extra_cells: mid_ty_bit_width
+                .saturating_add(cmp::max(left.extra_cells, right.extra_cells)),
+            extra_frames: cmp::max(left.extra_frames, right.extra_frames).saturating_add(1),
             cost: Cost::OVERHEAD + Cost::of_type(mid_ty_bit_width) + left.cost + right.cost,
         }
     }
@@ -351,9 +354,9 @@ impl NodeBounds {
     ) -> NodeBounds {
         NodeBounds {
             extra_cells: left_source_bit_width
-                + left_target_bit_width
-                + cmp::max(left.extra_cells, right.extra_cells),
-            extra_frames: 2 + cmp::max(left.extra_frames, right.extra_frames),
+                .saturating_add(left_target_bit_width)
+                .saturating_add(cmp::max(left.extra_cells, right.extra_cells)),
+            extra_frames: cmp::max(left.extra_frames, right.extra_frames).saturating_add(2),
             cost: Cost::OVERHEAD
                 + Cost::of_type(left_source_bit_width)
                 + Cost::of_type(left_source_bit_width)
